@@ -147,7 +147,7 @@ def run_job(job):
                                        "text": vprogs.module_source(prog), "init_text": vprogs.init_source(prog)})
                     seg["meta"].append({"step": st})
             elif do == "probe":
-                seg["ops"].append({"op": "probe", "name": st["name"]})
+                seg["ops"].append({"op": "probe", "name": st["name"], "also": st.get("also", [])})
                 seg["meta"].append({"step": st})
             elif do == "deps":
                 seg["ops"].append({"op": "deps", "name": st["name"]})
